@@ -19,6 +19,19 @@ Theorem fetch_installs_stored_version : forall (P : params) (ops : list opk) (sc
   exists v, c_dest L = DInst v /\ In v (stored (s_cl st)).
 Proof. exact fetch_installs_stored_version_l. Qed.
 Print Assumptions fetch_installs_stored_version.
+(* Several keys.  The store is key-indexed: one entry and its clients per key, every step tagged with the key of its call
+   and acting on that key's component (the entry directory is <root>/<whole key>: generated fact f_entry_is_whole_key, part
+   of generated_model_applies; keys of which one is a path prefix of another are outside this model).  For EVERY key-tagged
+   schedule with any faults: a Fetch under key k that reports success has installed one version whose Store had begun UNDER
+   THAT KEY — never a version stored under another key, and nothing at all when no Store under k ever began. *)
+Theorem fetch_installs_stored_version_keyed : forall (P : params) (ops : nat -> list opk) (sched : list (nat * label)),
+  (forall d, p_unzip_other P d = None) ->
+  forall k, let st := krun P (kinit P ops) sched k in
+  forall n L, nth_error (s_cl st) n = Some L -> fetch_ok L = true ->
+  exists v, c_dest L = DInst v /\ In v (stored (s_cl st)).
+Proof. exact fetch_installs_stored_version_keyed_l. Qed.
+Print Assumptions fetch_installs_stored_version_keyed.
+
 (* Cancellation / deadline of the caller's context inside a micro-step is covered by the same quantification: from then on
    every context check fails, i.e. the current and every later micro-step of THAT client carries the fault FErr (the schedule
    is arbitrary, so this fault pattern is among those quantified over); the client's deferred clean-ups (Rm with a background
